@@ -211,3 +211,79 @@ Definition e2e_scan_history (K C : nat) (ops : list SA.op) (pssm : list (list F3
 Definition e2e_max_history (K C : nat) (ops : list SA.op) (pssm : list (list F32.t))
            (am : arm) (thr : F32.t) (B : nat) : res (option fhit) :=
   st <- SA.run K C SM.s_default ops ;; e2e_max_buffer K C pssm st am thr B.
+
+(* ---------- Scanner::max with the kernel models plugged in ---------- *)
+
+(* ScanModel's take_k / max_loop / smax / max_after with max / threshold as parameters *)
+Section KMax.
+  Context {T : Type}.
+  Variable geb gtb eqb : T -> T -> bool.
+  Variable is_nan : T -> bool.
+  Variable scale : T -> nat.
+  Variable score_position : nat -> res T.
+  Variable score_rows : nat -> nat -> res dmatrix.
+  Variable kmax : dmatrix -> res (option nat).
+  Variable kthr : dmatrix -> nat -> list (nat * nat).
+  Variable R Lm B : nat.
+  Variable thr : T.
+
+  Fixpoint ktake_k (k : nat) (s : st (T := T)) : res (list (hit (T := T)) * st (T := T)) :=
+    match k with
+    | O => Ok ([], s)
+    | S k' =>
+        r <- knext geb is_nan scale score_position score_rows kmax kthr R Lm B thr s ;;
+        match fst r with
+        | None => Ok ([], snd r)
+        | Some h => r' <- ktake_k k' (snd r) ;; Ok (h :: fst r', snd r')
+        end
+    end.
+
+  Fixpoint kmax_loop (fuel : nat) (rw : nat) (best : option (hit (T := T))) (bd : nat)
+    : res (option (hit (T := T))) :=
+    match fuel with
+    | O => OutOfFuel
+    | S f =>
+        if rw <? R then
+          let e := Nat.min (rw + B) R in
+          d <- score_rows rw e ;;
+          mx <- kmax d ;;
+          r <- match mx with
+               | Some m => if bd <=? m
+                           then max_cands geb gtb eqb is_nan scale score_position R Lm thr rw d (kthr d bd) best bd
+                           else Ok (best, bd)
+               | None => Ok (best, bd)
+               end ;;
+          kmax_loop f (rw + B) (fst r) (snd r)
+        else Ok best
+    end.
+
+  Definition ksmax (s : st (T := T)) : res (option (hit (T := T))) :=
+    b0 <- max_by_score gtb eqb (filter (fun h => geb (snd h) thr) (rev (hits s))) ;;
+    let bd0 := match b0 with Some h => scale (snd h) | None => scale thr end in
+    kmax_loop (S R) (row s) b0 bd0.
+
+  Definition kmax_after (k : nat) : res (option (hit (T := T))) :=
+    r <- ktake_k k init ;; ksmax (snd r).
+End KMax.
+
+Definition k_max_after (v : cenv) (am : arm) (pads : nat -> list Z) (thr : F32.t) (B k : nat)
+  : res (option fhit) :=
+  kmax_after F32.ge F32.gt F32.eq F32.is_nan (ce_scale v)
+             (k_score_position (ce_L v) (ce_wrap v) (ce_sm v) (ce_pssm v))
+             (k_score_rows am pads (ce_L v) (ce_wrap v) (ce_sm v) (d_data (ce_dm v)))
+             (k_max am) (k_threshold am)
+             (ce_R v) (ce_Lm v) B thr k.
+
+Definition e2e_max_kernels (A : EM.abc) (p : EI.pipeline) (junk : nat -> EM.sym) (text : list byte)
+           (be : SA.backend) (old : SM.sseq) (pssm : list (list F32.t))
+           (am : arm) (pads : nat -> list Z) (thr : F32.t) (B k : nat) : res (option fhit) :=
+  r <- e2e_prepare A 32 p junk text be old (length pssm) ;;
+  v <- e_env (EM.a_K A) 32 pssm (snd r) ;;
+  k_max_after v am pads thr B k.
+
+Definition e2e_max_after (A : EM.abc) (C : nat) (p : EI.pipeline) (junk : nat -> EM.sym) (text : list byte)
+           (be : SA.backend) (old : SM.sseq) (pssm : list (list F32.t))
+           (am : arm) (thr : F32.t) (B k : nat) : res (option fhit) :=
+  r <- e2e_prepare A C p junk text be old (length pssm) ;;
+  v <- e_env (EM.a_K A) C pssm (snd r) ;;
+  ce_max_after v am thr B k.
